@@ -236,6 +236,25 @@ def end_to_end(ctx, reqs, sd_out):
         for e in ("W", "U"):
             main.append('p("%s%d", %s%d::decl(), vec![serde_json::to_string(&%s%d::A { %s }).unwrap()]);' % (
                 e, ri, e, ri, e, ri, ", ".join("%s: 0" % f for f in fs)))
+    # routing (StructAttr::from_variant): which rule reaches the fields of a struct variant, for every enum
+    # representation x variant-level `untagged` x where the rule comes from
+    routing = []
+    pairs = [("camelCase", "SCREAMING_SNAKE_CASE")] if ctx.quick else [("camelCase", "SCREAMING_SNAKE_CASE"), ("kebab-case", "PascalCase"), ("UPPERCASE", "snake_case")]
+    for (r1, r2) in pairs:
+        for repr_ in ("external", "internal", "adjacent", "untagged"):
+            for vunt in (False, True):
+                for source in ("raf", "vra", "both", "ra+raf", "ra"):
+                    k = len(routing)
+                    ea = {"external": [], "internal": ['tag = "t"'], "adjacent": ['tag = "t"', 'content = "c"'], "untagged": ["untagged"]}[repr_]
+                    if source in ("raf", "both", "ra+raf"):
+                        ea.append('rename_all_fields = "%s"' % r1)
+                    if source in ("ra+raf", "ra"):
+                        ea.append('rename_all = "%s"' % r2)
+                    va = (["untagged"] if vunt else []) + (['rename_all = "%s"' % r2] if source in ("vra", "both") else [])
+                    items.append('#[derive(TS, Serialize)] %s enum R%d { Unit_v, Plain_v { foo_bar: u8 }, %s Target_v { foo_bar: u8, x1_y: u8 } }' % (
+                        "#[serde(%s)]" % ", ".join(ea) if ea else "", k, "#[serde(%s)]" % ", ".join(va) if va else ""))
+                    main.append('p("R%d", R%d::decl(), vec![serde_json::to_string(&R%d::Plain_v { foo_bar: 0 }).unwrap(), serde_json::to_string(&R%d::Target_v { foo_bar: 0, x1_y: 0 }).unwrap()]);' % (k, k, k, k))
+                    routing.append(dict(repr=repr_, variant_untagged=vunt, source=source, rules=[r1, r2]))
     src = """#![allow(non_snake_case, non_camel_case_types, dead_code, uncommon_codepoints, mixed_script_confusables)]
 use serde::Serialize; use ts_rs::TS;
 %s
@@ -250,6 +269,31 @@ fn main() { %s }
     import json
     for line in out.split("\n")[:-1]:
         name, decl, *js = line.split("\t")
+        if name[0] == "R":
+            rt = routing[int(name[1:])]
+            ts_names = [m.strip('"') for m in re.findall(r'(?:[{ ])((?:"[^"]*")|[^\s"{},:]+): number,', decl)]
+            sd_names, tags = [], []
+            for vi, j in enumerate(js):
+                o = json.loads(j)
+                unt = rt["repr"] == "untagged" or (vi == 1 and rt["variant_untagged"])
+                if unt:
+                    inner = o
+                elif rt["repr"] == "external":
+                    (tag, inner), = o.items()
+                    tags.append(tag)
+                elif rt["repr"] == "internal":
+                    tags.append(o.pop("t"))
+                    inner = o
+                else:
+                    tags.append(o["t"])
+                    inner = o["c"]
+                sd_names += list(inner.keys())
+            compared += len(sd_names) + len(tags)
+            missing = [t for t in tags if ('"%s"' % t) not in decl]
+            if ts_names != sd_names or missing:
+                mism.append(dict(type=name, routing=rt, binding=ts_names, wire=sd_names, variant_names_missing_in_binding=missing, decl=decl,
+                                 item=[i for i in items if " enum %s " % name in i][0]))
+            continue
         if name[0] == "V":
             ts_names = re.findall(r'"([^"]*)"', decl.split("=", 1)[1])
             sd_names = [json.loads(j) for j in js]
@@ -262,7 +306,10 @@ fn main() { %s }
         compared += len(sd_names)
         if ts_names != sd_names:
             mism.append(dict(type=name, rule=RULES[int(name[1:])], binding=ts_names, wire=sd_names, decl=decl))
+    if ctx.replay:
+        mism = [m for m in mism]
     for m in mism[:1]:
         ctx.fail("compiled derive: binding keys differ from serde_json keys", dict(kind="property-violated", source=src, **m))
     return {"types": len(items), "compared": compared, "mismatching_types": len(mism),
-            "fields": E2E_FIELDS, "variants": E2E_VARIANTS}
+            "fields": E2E_FIELDS, "variants": E2E_VARIANTS, "routing_items": len(routing),
+            "routing_rule": "4 enum representations x variant-level untagged {no, yes} x rule source {rename_all_fields, variant rename_all, both, enum rename_all + rename_all_fields, enum rename_all only}: keys of both struct variants and the variant names on the wire vs in decl()"}
